@@ -279,8 +279,12 @@ func vRunSrvScenario(sc *vSrvScenario) ([]vOutEvent, map[string]interface{}) {
 	s.Run()
 	_ = clientClosed
 	_ = quitErr
-	// what the server still tracks
+	// what the server still tracks (only a run that reached a quiescent point is judged at its end: after a scheduler that gave up,
+	// the released goroutines are still tearing things down)
 	svr.connections.Range(func(key, value interface{}) bool {
+		if s.stuck != "" {
+			return false
+		}
 		c := value.(*connection)
 		act := 0
 		if c.IsActiveRaw() {
